@@ -867,6 +867,8 @@ class ExecMixin:
     def run_loop(self, seq: Seq, node, state: State, bind, body) -> None:
         """Abstract `for`: bind(elem, state) then body(state), over all positions of `seq`."""
         frame = self.stack[-1]
+        if "set-order" in seq.flags:
+            self.event("set-iteration", node, elem=seq.elem, seq=seq)
         if seq.fixed is not None and len(seq.fixed) <= (30 if self.explicit else UNROLL) and seq.witness is None:
             # concrete unrolling: no token; the context only collects break/continue
             lid = self.site_id("unrolled", node)
